@@ -3,17 +3,59 @@ package tgen
 import (
 	"fmt"
 
+	"github.com/a-h/templ"
+
 	"verifharness/internal/rng"
 )
 
+// on* attribute vocabulary of the fragment grammar: scripts with an empty definition (helper scr in Helpers)
+var FragScriptExprs = []string{`scr("a")`, `scr(s0)`, `scr(s1)`}
+
+// FragScriptCallVal: the Call string of a script expression of the vocabulary (what the on* attribute writes).
+func FragScriptCallVal(x string, a Args) (string, bool) {
+	switch x {
+	case `scr("a")`:
+		return templ.SafeScript("scr", "a"), true
+	case `scr(s0)`:
+		return templ.SafeScript("scr", a.S0), true
+	case `scr(s1)`:
+		return templ.SafeScript("scr", a.S1), true
+	}
+	return "", false
+}
+
 // Fragment grammar (Opts.Fragment): exactly the node and attribute kinds coq/model/IrFragPrint.v's to_frag accepts -
-// text, string expressions (incl. (string, error) calls), inline/block/void elements, raw <style> elements, doctype,
-// HTML and Go comments, raw Go code, if/else-if/else, for, switch, calls without blocks of later templates of the
-// file; constant, boolean-constant, string-expression (default sink), boolean-expression, class-expression and
-// conditional attributes.  No children slot, no spread/URL/style/on* attributes, no hand-written components.
+// text, string expressions (incl. (string, error) calls), inline/block/void elements, raw <style> elements, script
+// elements with {{ }}, doctype, HTML and Go comments, raw Go code, if/else-if/else, for, switch, calls with and without
+// blocks of later templates of the file, of Card (which renders { children... }) and of the hand-written components
+// wrap() / ignore() / templ.Raw / c0, the children slot, legacy {! } calls, calls with multi-line arguments; constant,
+// boolean-constant, boolean-expression, conditional, spread and expression attributes of every sink (default, URL, style,
+// on* with empty-definition scripts, class lists), single- and multi-line expressions.  No once handles / templ.Flush().
 
 func (g *G) fragAttr(el string, depth int) string {
-	switch g.r.Intn(10) {
+	switch g.r.Intn(16) {
+	case 10:
+		if el == "a" {
+			return fmt.Sprintf(`href={ templ.URL(%s) }`, rng.Pick(g.r, []string{"s0", "s1", `"/p?" + s0`}))
+		}
+		return fmt.Sprintf(`data-u={ %s }`, g.strExpr())
+	case 11:
+		return rng.Pick(g.r, []string{`style={ "color:red" }`, `style={ s1 }`, `style={ map[string]string{"color": s0} }`})
+	case 12:
+		return "{ at... }"
+	case 13:
+		return fmt.Sprintf(`%s={ %s }`, rng.Pick(g.r, []string{"onclick", "onfocus", "hx-on:click"}), rng.Pick(g.r, FragScriptExprs))
+	case 14:
+		if g.o.Layout {
+			// an expression spanning two lines (printed in place by printer.attrs)
+			return fmt.Sprintf("data-m={ %s +\n\ts1 }", rng.Pick(g.r, []string{"s0", `"é"`, `"😀"`}))
+		}
+		return `data-x="1"`
+	case 15:
+		if g.o.Layout {
+			return "class={\n\t\"k1\",\n\ttempl.KV(\"k2\", b0),\n}"
+		}
+		return `lang="en"`
 	case 0:
 		return rng.Pick(g.r, []string{`class="c1 c2"`, `id="i1"`, `data-x="1"`, `title="a &amp; b"`, `title='sq'`, `lang="en"`, `alt=""`, `data-e="x&#34;y"`})
 	case 1:
@@ -102,14 +144,45 @@ func (g *G) fragNode(depth int) *node {
 	case k < 88 && g.o.Calls && g.tIndex+1 < g.nT:
 		callee := fmt.Sprintf("%sT%d", g.o.Prefix, g.tIndex+1+g.r.Intn(g.nT-g.tIndex-1))
 		return &node{kind: "call", text: callee + CallArgs}
-	case k < 91:
+	case k < 89:
 		return &node{kind: "gocode", text: rng.Pick(g.r, []string{"_ = len(xs)\n_ = s1", "_ = s0", "_, _ = s0, b0"})}
-	case k < 94:
+	case k < 91:
 		return &node{kind: "comment", text: rng.Pick(g.r, []string{" a comment ", "x", " multi\n line ", ""})}
-	case k < 96:
+	case k < 92:
 		return &node{kind: "gocomment", text: rng.Pick(g.r, []string{" go comment", "TODO"})}
 	case k < 98:
-		return &node{kind: "raw", name: "style", text: rng.Pick(g.r, []string{"p { color: red; }", "\n.a > .b { margin: 0 }\n", ""})}
+		switch g.r.Intn(8) {
+		case 0:
+			return &node{kind: "script", text: rng.Pick(g.r, []string{"var a = 1;", "const v = {{ s0 }};", "let s = '{{ s1 }}';\nlet t = \"{{ s0 }}\";", "f({{ xs }}, `{{ s0 }}`);"})}
+		case 1:
+			if g.children {
+				return &node{kind: "children"}
+			}
+			return &node{kind: "call", text: "c0"}
+		case 2:
+			return &node{kind: "call", text: rng.Pick(g.r, []string{"wrap()", "ignore()", `templ.Raw("<r>")`, "c0"})}
+		case 3:
+			if g.o.Layout {
+				return &node{kind: "legacycall", text: rng.Pick(g.r, []string{"c0", g.o.Prefix + "Card" + CallArgs, "ignore()"})}
+			}
+			return &node{kind: "call", text: g.o.Prefix + "Card" + CallArgs}
+		case 4, 5:
+			if leaf {
+				return &node{kind: "call", text: g.o.Prefix + "Card" + CallArgs}
+			}
+			callee := rng.Pick(g.r, []string{"wrap()", "wrap()", "ignore()", `templ.Raw("<r>")`, g.o.Prefix + "Card" + CallArgs, g.o.Prefix + "Card" + CallArgs})
+			if g.tIndex+1 < g.nT && g.r.Bool() {
+				callee = fmt.Sprintf("%sT%d", g.o.Prefix, g.tIndex+1+g.r.Intn(g.nT-g.tIndex-1)) + CallArgs
+			}
+			return &node{kind: "callblock", text: callee, children: g.nodes(depth - 1)}
+		case 6:
+			if !leaf && g.o.Layout {
+				return &node{kind: "callinline", text: g.o.Prefix + "Card(s0,\n\ts1, b0, b1, xs, c0, at)", children: []*node{{kind: "expr", text: g.strExpr()}}}
+			}
+			return &node{kind: "call", text: g.o.Prefix + "Card" + CallArgs}
+		default:
+			return &node{kind: "raw", name: "style", text: rng.Pick(g.r, []string{"p { color: red; }", "\n.a > .b { margin: 0 }\n", ""})}
+		}
 	default:
 		return &node{kind: "text", text: g.textRun()}
 	}
